@@ -13,3 +13,6 @@ import TradingVerif.Props.C05
 #print axioms TV.flat_margin_zero_after_mark
 #print axioms TV.flat_margin_zero_at_valuation
 #print axioms TV.nlv_decomposition_open
+#print axioms TV.stepOp_ex
+#print axioms TV.shared_exchange_stays_shared
+#print axioms TV.two_accounts_isolated
